@@ -3,7 +3,35 @@ import ModbusVerif.Lemmas.GoEvalLifeLemmas
 /-
   Support for `Props/C20SrcScan.lean`: the scan / ping / decodeString functions of
   cmd/modbus-cli.go (`Gen.gs_cli_performBoolScan`, `…RegisterScan`, `…UnitIdScan`, `…Ping`,
-  `gs_cli_decodeString`), evaluated by `Modbus.GoEval` for ALL outcomes of the client calls.
+  `gs_cli_decodeString`, regenerated on every run), evaluated by `Modbus.GoEval` for ALL outcomes of
+  the client calls. Nothing is evaluated 65536 times: every loop is handled by induction.
+
+   0. GENERIC LOOPS. `loop_counted`: a counted loop by induction on the rounds still to come, given
+      an invariant `Inv i env cs`, the run of one round (ends `fell` or `continued`: a `continue`
+      whose post statement was run) and of the exit round. `loop_diverges`: a loop whose rounds keep
+      an invariant and never break runs out of EVERY fuel. Both for `execFromW` (oracles that see the
+      call log; `execFromW_const`: the same evaluator on stateless oracles).
+   1. SHAPE of the two address scans: `scanWith flag nameT nameE t head` (regType, start line,
+      `addr = 0`, loop, found line, return), `scanHead t op bound call found onSkip onFail` (one round),
+      `boolScan_shape`, `regScan_shape`: the generated terms ARE these (`rfl`).
+   2. THE DEVICE `scanOracle ans`: reads answered by address. `ScanInv`: what a round needs of its
+      environment. `bool_round` / `bool_exit` / `bool_loop` (the loop, any bound `b ≤ 0xffff`).
+   3. `scanWith_run`: the function given the run of its loop; `ScanPre` (entry environment),
+      `bool_run`. 4. `requests` / `printed`: reading a call log. 5. the register scan, same plan.
+   6. `decodeString`: probe instrumentation (`withProbe` of GoEvalLifeLemmas), `historyP` (the
+      bindings of an environment, oldest first), `ds_round` / `ds_exit` / `ds_loop` / `ds_run`.
+   7. `performPing`: `pingWorld` (k-th probe ↦ `ans k`, by the number of probes in the log),
+      `PingConst` / `PingDyn`, `ping_round` / `ping_exit` / `ping_loop` / `ping_run`.
+   8. `performUnitIdScan`: `unitWorld` (answer by the unit id selected last in the log: `lastUnit`),
+      `unit_round` / `unit_exit` / `unit_loop` / `unit_run`.
+   9. variants that never end: `seq_diverges_*`, `scanWith_diverges`; the 16-bit counter
+      (`bool16_round`, `bool16_loop_diverges`); `continue` without post statement
+      (`boolNoPost_round`, `boolNoPost_loop_diverges`).
+  10. term transformers `retype`, `dropPost`, `reBound`, `breakOnFail` and what they make of the
+      generated bool scan (`rfl`). 11. reading the logs of ping and unit id scan.
+
+  Conventions: string literals / qualified error constants are `abbrev`s of their leaf texts
+  (`fmtFail`, `symIDA`, …); the environments bind them to symbols named by their own text.
 -/
 set_option linter.unusedSimpArgs false
 set_option linter.unusedVariables false
@@ -196,11 +224,12 @@ structure ScanInv (flag : String) (fv : Bool) (rt : Val) (fmtRow : String) (a c 
   fRow : Env.read? env fmtRow = some (.sym fmtRow)
   fFound : Env.read? env fmtFound = some (.sym fmtFound)
 
-/-- the environment after the round that read `(v, e)` at address `a` (`a'` = the next address) -/
-def roundEnv (env : Env) (v : Val) (e : String) (a' c : Int) : Env :=
+/-- the environment after the round that read `(v, e)` (`a'` = the next address, `c'` = the
+    incremented count) -/
+def roundEnv (env : Env) (v : Val) (e : String) (a' c' : Int) : Env :=
   if isNotThere e = true then ((env.write "val" v).write "err" (.sym e)).write "addr" (.int a')
   else if e ≠ "nil" then ((env.write "val" v).write "err" (.sym e)).write "addr" (.int a')
-  else (((env.write "val" v).write "err" (.sym e)).write "count" (.int (c + 1))).write "addr" (.int a')
+  else (((env.write "val" v).write "err" (.sym e)).write "count" (.int c')).write "addr" (.int a')
 
 def roundHow (e : String) : End := if isNotThere e = true then .continued else .fell
 
@@ -217,7 +246,7 @@ theorem bool_round (ans : Nat → Val × String) (b : Nat) (hb : b ≤ 65535) (i
     (a c : Nat) (ha : a ≤ b) (hc : c < 18446744073709551615) (env : Env) (cs : Calls) (m : Nat)
     (inv : ScanInv "isCoil" isCoil rt fmtBoolRow a c env) :
     execFromW (scanWorld ans) (m + 8) (boolHead b) env cs =
-      ⟨roundEnv env (ans a).1 (ans a).2 ((a + 1 : Nat) : Int) c, roundHow (ans a).2,
+      ⟨roundEnv env (ans a).1 (ans a).2 ((a + 1 : Nat) : Int) ((c : Int) + 1), roundHow (ans a).2,
         cs ++ (boolCallee isCoil, [.int a]) ::
           roundPrint rt [.sym fmtBoolRow, .int a, .int a, (ans a).1] a (ans a).2⟩ := by
   have hle : (a : Int) ≤ (b : Int) := by omega
@@ -247,8 +276,8 @@ theorem ScanInv.round {flag : String} {fv : Bool} {rt : Val} {fmtRow : String} {
     (inv : ScanInv flag fv rt fmtRow a c env)
     (hf : "val" ≠ flag ∧ "err" ≠ flag ∧ "count" ≠ flag ∧ "addr" ≠ flag)
     (hr : "val" ≠ fmtRow ∧ "err" ≠ fmtRow ∧ "count" ≠ fmtRow ∧ "addr" ≠ fmtRow)
-    (v : Val) (e : String) (a' : Int) :
-    ScanInv flag fv rt fmtRow a' (if e = "nil" then c + 1 else c) (roundEnv env v e a' c) := by
+    (v : Val) (e : String) (a' c' : Int) :
+    ScanInv flag fv rt fmtRow a' (if e = "nil" then c' else c) (roundEnv env v e a' c') := by
   obtain ⟨hf1, hf2, hf3, hf4⟩ := hf
   obtain ⟨hr1, hr2, hr3, hr4⟩ := hr
   by_cases hnt : isNotThere e = true
@@ -307,14 +336,14 @@ theorem bool_loop (ans : Nat → Val × String) (b : Nat) (hb : b ≤ 65535) (is
     (by
       intro i env1 cs1 m hi ⟨inv1, hcs⟩
       have hn := nilCount_le ans i
-      refine ⟨roundEnv env1 (ans i).1 (ans i).2 ((i + 1 : Nat) : Int) (nilCount ans i : Nat),
+      refine ⟨roundEnv env1 (ans i).1 (ans i).2 ((i + 1 : Nat) : Int) ((nilCount ans i : Nat) + 1),
         cs1 ++ boolRoundCalls ans isCoil rt i, ⟨?_, ?_⟩, ?_⟩
       rotate_left 2
       · have := bool_round ans b hb isCoil rt i (nilCount ans i) (by omega) (by omega) env1 cs1 m inv1
         rcases roundHow_cases (ans i).2 with h | h
         · left; rw [this, h]; rfl
         · right; rw [this, h]; rfl
-      · have := inv1.round (by decide) (by decide) (ans i).1 (ans i).2 ((i + 1 : Nat) : Int)
+      · have := inv1.round (by decide) (by decide) (ans i).1 (ans i).2 ((i + 1 : Nat) : Int) ((nilCount ans i : Nat) + 1)
         rw [nilCount_succ]
         split at this <;> rename_i h
         · simpa [h] using this
@@ -519,7 +548,7 @@ theorem reg_round (ans : Nat → Val × String) (b : Nat) (hb : b ≤ 65535) (is
     (a c : Nat) (ha : a ≤ b) (hc : c < 18446744073709551615) (env : Env) (cs : Calls) (m : Nat)
     (inv : ScanInv "isHoldingReg" isH rt fmtRegRow a c env) :
     execFromW (scanWorld ans) (m + 8) (regHead b) env cs =
-      ⟨roundEnv env (ans a).1 (ans a).2 ((a + 1 : Nat) : Int) c, roundHow (ans a).2,
+      ⟨roundEnv env (ans a).1 (ans a).2 ((a + 1 : Nat) : Int) ((c : Int) + 1), roundHow (ans a).2,
         cs ++ ("client.ReadRegister", [.int a, .int (regTypeArg isH)]) ::
           roundPrint rt [.sym fmtRegRow, .int a, .int a, (ans a).1, (ans a).1] a (ans a).2⟩ := by
   have hle : (a : Int) ≤ (b : Int) := by omega
@@ -557,14 +586,14 @@ theorem reg_loop (ans : Nat → Val × String) (b : Nat) (hb : b ≤ 65535) (isH
     (by
       intro i env1 cs1 m hi ⟨inv1, hcs⟩
       have hn := nilCount_le ans i
-      refine ⟨roundEnv env1 (ans i).1 (ans i).2 ((i + 1 : Nat) : Int) (nilCount ans i : Nat),
+      refine ⟨roundEnv env1 (ans i).1 (ans i).2 ((i + 1 : Nat) : Int) ((nilCount ans i : Nat) + 1),
         cs1 ++ regRoundCalls ans isH rt i, ⟨?_, ?_⟩, ?_⟩
       rotate_left 2
       · have := reg_round ans b hb isH rt i (nilCount ans i) (by omega) (by omega) env1 cs1 m inv1
         rcases roundHow_cases (ans i).2 with h | h
         · left; rw [this, h]; rfl
         · right; rw [this, h]; rfl
-      · have := inv1.round (by decide) (by decide) (ans i).1 (ans i).2 ((i + 1 : Nat) : Int)
+      · have := inv1.round (by decide) (by decide) (ans i).1 (ans i).2 ((i + 1 : Nat) : Int) ((nilCount ans i : Nat) + 1)
         rw [nilCount_succ]
         split at this <;> rename_i h
         · simpa [h] using this
@@ -1324,5 +1353,389 @@ theorem unit_run (ans : Nat → Val × String) (env0 : Env) (c : UnitConst env0)
   show execFromW _ (256 + 15 + 3) _ _ _ = _
   go_evalW [unitWith, unitWorld, c.fStart, hl, c2.fFound, dy2.ok, dy2.er, dy2.to, dy2.gw, unitLog,
     List.append_assoc]
+
+/-! ### 9. variants: runs that never end -/
+
+/-- a run that ends (not `outOfFuel`) with some fuel is, with ANY fuel, either that run or out of fuel -/
+theorem run_or_oof (w : World) {K : Nat} {s : GStmt} {env : Env} {cs : Calls} {r : Res}
+    (h : execFromW w K s env cs = r) (hr : r.how ≠ .outOfFuel) (n : Nat) :
+    (execFromW w n s env cs).how = .outOfFuel ∨ execFromW w n s env cs = r := by
+  by_cases hoof : (execFromW w n s env cs).how = .outOfFuel
+  · exact Or.inl hoof
+  · right
+    have e1 := execFromW_mono w n (max n K) s env cs (Nat.le_max_left _ _) hoof
+    have e2 := execFromW_mono w K (max n K) s env cs (Nat.le_max_right _ _) (by rw [h]; exact hr)
+    rw [← e1, e2, h]
+
+theorem seq_diverges_left (w : World) (a b : GStmt) (env : Env) (cs : Calls)
+    (h : ∀ n, (execFromW w n a env cs).how = .outOfFuel) :
+    ∀ n, (execFromW w n (.seq a b) env cs).how = .outOfFuel := by
+  intro n
+  cases n with
+  | zero => rw [execFromW_zero]
+  | succ n =>
+    rw [execFromW_seq]
+    have := h n
+    generalize execFromW w n a env cs = r at this
+    obtain ⟨e, hw, c⟩ := r
+    cases this
+    rfl
+
+theorem seq_diverges_right (w : World) (a b : GStmt) (env env1 : Env) (cs cs1 : Calls) (K : Nat)
+    (ha : execFromW w K a env cs = ⟨env1, .fell, cs1⟩)
+    (hb : ∀ n, (execFromW w n b env1 cs1).how = .outOfFuel) :
+    ∀ n, (execFromW w n (.seq a b) env cs).how = .outOfFuel := by
+  intro n
+  cases n with
+  | zero => rw [execFromW_zero]
+  | succ n =>
+    rw [execFromW_seq]
+    rcases run_or_oof w ha (fun x => nomatch x) n with h | h
+    · generalize execFromW w n a env cs = r at h
+      obtain ⟨e, hw, c⟩ := r
+      cases h
+      rfl
+    · rw [h, seqKW_fell]; exact hb n
+
+/-- a scan function whose loop never ends never ends -/
+theorem scanWith_diverges (w : World) (hw : ∀ cs args, w cs "fmt.Printf" args = some [])
+    (flag nameT nameE : String) (t : GTy) (head : GStmt) (fv : Bool) (env0 : Env)
+    (hflag : Env.read? env0 flag = some (.ofBool fv))
+    (hT : Env.read? env0 nameT = some (.sym nameT)) (hE : Env.read? env0 nameE = some (.sym nameE))
+    (hS : Env.read? env0 fmtStart = some (.sym fmtStart))
+    (hloop : ∀ n, (execFromW w n (.loop head)
+        ((env0.write "regType" (regTypeOf fv nameT nameE)).write "addr" (.int 0))
+        [("fmt.Printf", [.sym fmtStart, regTypeOf fv nameT nameE])]).how = .outOfFuel) :
+    ∀ n, (execFromW w n (scanWith flag nameT nameE t head) env0 []).how = .outOfFuel := by
+  have hS1 : ∀ v, Env.read? (Env.write env0 "regType" v) fmtStart = some (.sym fmtStart) := by
+    intro v; rw [read?_write_ne _ _ _ _ (by decide), hS]
+  unfold scanWith
+  refine seq_diverges_right w _ _ env0 (env0.write "regType" (regTypeOf fv nameT nameE)) [] [] 2 ?_ ?_
+  · cases fv <;> go_evalW [hflag, hT, hE, regTypeOf]
+  refine seq_diverges_right w _ _ _ (env0.write "regType" (regTypeOf fv nameT nameE)) []
+    [("fmt.Printf", [.sym fmtStart, regTypeOf fv nameT nameE])] 1 ?_ ?_
+  · go_evalW [hS1, hw, read?_write_same]
+  refine seq_diverges_left w _ _ _ _ ?_
+  refine seq_diverges_right w _ _ _ ((env0.write "regType" (regTypeOf fv nameT nameE)).write "addr" (.int 0)) _ _ 1 ?_ hloop
+  go_evalW []
+
+/-! #### the 16-bit counter -/
+
+/-- the loop body of `performBoolScan` with `var addr uint16` instead of `uint32` -/
+def boolHead16 : GStmt :=
+  scanHead .u16 "<=" 65535 (boolCall .u16) (boolFound .u16) (skipPost .u16) (failPrint .u16)
+
+/-- ONE ROUND with a 16-bit counter at ANY address `a ≤ 65535`: the test `addr <= 0xffff` holds, and
+    the next address is `(a + 1) mod 65536` -/
+theorem bool16_round (ans : Nat → Val × String) (isCoil : Bool) (rt : Val) (a : Nat) (c : Int)
+    (ha : a ≤ 65535) (env : Env) (cs : Calls) (m : Nat)
+    (inv : ScanInv "isCoil" isCoil rt fmtBoolRow a c env) :
+    execFromW (scanWorld ans) (m + 8) boolHead16 env cs =
+      ⟨roundEnv env (ans a).1 (ans a).2 (((a : Int) + 1) % 65536) ((c + 1) % 18446744073709551616),
+        roundHow (ans a).2,
+        cs ++ (boolCallee isCoil, [.int a]) ::
+          roundPrint rt [.sym fmtBoolRow, .int a, .int a, (ans a).1] a (ans a).2⟩ := by
+  have hle : (a : Int) ≤ 65535 := by omega
+  have hw16 : (a : Int) % 65536 = (a : Int) := by omega
+  cases isCoil <;>
+  · go_evalW [boolHead16, scanHead, boolCall, boolFound, skipPost, failPrint, notThere, errNotNil,
+      addrInc, countInc, scanWorld, scanOracle, answerAt_nat, inv.addr, inv.count, inv.flag,
+      inv.regType, inv.ida, inv.ifn, inv.nil, inv.fFail, inv.fRow, inv.fFound, hle, hw16,
+      roundEnv, roundHow, roundPrint, boolCallee, isNotThere, Bool.or_eq_true, fmtFail, fmtBoolRow,
+      fmtFound, symIDA, symIFN]
+    repeat' split
+    all_goals first | rfl | simp only [List.append_assoc, List.cons_append, List.nil_append]
+
+/-- WITH A 16-BIT COUNTER THE LOOP NEVER ENDS: `addr <= 0xffff` is always true, after address 65535
+    the counter wraps to 0 -/
+theorem bool16_loop_diverges (ans : Nat → Val × String) (isCoil : Bool) (rt : Val) (env : Env) (cs : Calls)
+    (inv : ScanInv "isCoil" isCoil rt fmtBoolRow 0 0 env) (n : Nat) :
+    (execFromW (scanWorld ans) n (.loop boolHead16) env cs).how = .outOfFuel := by
+  refine loop_diverges (scanWorld ans) boolHead16 8
+    (fun env' _ => ∃ (a : Nat) (c : Int), a ≤ 65535 ∧ ScanInv "isCoil" isCoil rt fmtBoolRow a c env')
+    ?_ n env cs ⟨0, 0, by omega, inv⟩
+  intro env1 cs1 ⟨a, c, ha, inv1⟩
+  have hr := bool16_round ans isCoil rt a c ha env1 cs1 0 inv1
+  have hinv := inv1.round (by decide) (by decide) (ans a).1 (ans a).2 (((a : Int) + 1) % 65536)
+    ((c + 1) % 18446744073709551616)
+  rw [show (0 + 8 : Nat) = 8 from rfl] at hr
+  have e : (((a + 1) % 65536 : Nat) : Int) = ((a : Int) + 1) % 65536 := by omega
+  rcases roundHow_cases (ans a).2 with h | h
+  · rw [h] at hr
+    exact ⟨_, _, ⟨(a + 1) % 65536, _, by omega, by rw [e]; exact hinv⟩, Or.inl hr⟩
+  · rw [h] at hr
+    exact ⟨_, _, ⟨(a + 1) % 65536, _, by omega, by rw [e]; exact hinv⟩, Or.inr hr⟩
+
+/-! #### `continue` without the post statement -/
+
+/-- the loop body of `performBoolScan` with `continue` rendered as `.cont` alone (the post statement
+    `addr++` is NOT run on `continue`) -/
+def boolHeadNoPost : GStmt :=
+  scanHead .u32 "<=" 65535 (boolCall .u32) (boolFound .u32) .cont (failPrint .u32)
+
+/-- ONE ROUND of that variant: at a "not there" address the counter is not advanced -/
+theorem boolNoPost_round (ans : Nat → Val × String) (isCoil : Bool) (rt : Val) (a : Nat) (c : Int)
+    (ha : a ≤ 65535) (env : Env) (cs : Calls) (m : Nat)
+    (inv : ScanInv "isCoil" isCoil rt fmtBoolRow a c env) :
+    execFromW (scanWorld ans) (m + 8) boolHeadNoPost env cs =
+      if isNotThere (ans a).2 = true then
+        ⟨(env.write "val" (ans a).1).write "err" (.sym (ans a).2), .continued, cs ++ [(boolCallee isCoil, [.int a])]⟩
+      else
+        ⟨roundEnv env (ans a).1 (ans a).2 ((a + 1 : Nat) : Int) ((c + 1) % 18446744073709551616), .fell,
+          cs ++ (boolCallee isCoil, [.int a]) ::
+            roundPrint rt [.sym fmtBoolRow, .int a, .int a, (ans a).1] a (ans a).2⟩ := by
+  have hle : (a : Int) ≤ 65535 := by omega
+  have hw16 : (a : Int) % 65536 = (a : Int) := by omega
+  have hw32 : ((a : Int) + 1) % 4294967296 = ((a + 1 : Nat) : Int) := by omega
+  cases isCoil <;>
+  · go_evalW [boolHeadNoPost, scanHead, boolCall, boolFound, failPrint, notThere, errNotNil,
+      addrInc, countInc, scanWorld, scanOracle, answerAt_nat, inv.addr, inv.count, inv.flag,
+      inv.regType, inv.ida, inv.ifn, inv.nil, inv.fFail, inv.fRow, inv.fFound, hle, hw16, hw32,
+      roundEnv, roundPrint, boolCallee, isNotThere, Bool.or_eq_true, fmtFail, fmtBoolRow,
+      fmtFound, symIDA, symIFN]
+    repeat' split
+    all_goals first | rfl | simp only [List.append_assoc, List.cons_append, List.nil_append]
+
+theorem ScanInv.bind {flag : String} {fv : Bool} {rt : Val} {fmtRow : String} {a c : Int} {env : Env}
+    (inv : ScanInv flag fv rt fmtRow a c env)
+    (hf : "val" ≠ flag ∧ "err" ≠ flag) (hr : "val" ≠ fmtRow ∧ "err" ≠ fmtRow) (v : Val) (e : String) :
+    ScanInv flag fv rt fmtRow a c ((env.write "val" v).write "err" (.sym e)) := by
+  obtain ⟨hf1, hf2⟩ := hf
+  obtain ⟨hr1, hr2⟩ := hr
+  constructor
+  all_goals
+    simp only [read?_write, hf1, hf2, hr1, hr2, String.reduceEq, ↓reduceIte, fmtFail,
+      fmtFound, symIDA, symIFN, inv.addr, inv.count, inv.flag, inv.regType, inv.ida, inv.ifn, inv.nil,
+      inv.fFail, inv.fRow, inv.fFound]
+
+/-- WITHOUT THE POST STATEMENT ON `continue` the loop never ends as soon as ONE address `a0 ≤ 0xffff`
+    is answered with illegal data address / illegal function: the scan reads `a0` again and again -/
+theorem boolNoPost_loop_diverges (ans : Nat → Val × String) (isCoil : Bool) (rt : Val) (env : Env) (cs : Calls)
+    (inv : ScanInv "isCoil" isCoil rt fmtBoolRow 0 0 env) (a0 : Nat) (h0 : a0 ≤ 65535)
+    (hnt : isNotThere (ans a0).2 = true) (n : Nat) :
+    (execFromW (scanWorld ans) n (.loop boolHeadNoPost) env cs).how = .outOfFuel := by
+  refine loop_diverges (scanWorld ans) boolHeadNoPost 8
+    (fun env' _ => ∃ (a : Nat) (c : Int), a ≤ a0 ∧ ScanInv "isCoil" isCoil rt fmtBoolRow a c env')
+    ?_ n env cs ⟨0, 0, by omega, inv⟩
+  intro env1 cs1 ⟨a, c, ha, inv1⟩
+  have hr := boolNoPost_round ans isCoil rt a c (by omega) env1 cs1 0 inv1
+  rw [show (0 + 8 : Nat) = 8 from rfl] at hr
+  by_cases h : isNotThere (ans a).2 = true
+  · rw [if_pos h] at hr
+    exact ⟨_, _, ⟨a, c, ha, inv1.bind (by decide) (by decide) _ _⟩, Or.inr hr⟩
+  · rw [if_neg h] at hr
+    have hlt : a < a0 := by
+      rcases Nat.lt_or_ge a a0 with h1 | h1
+      · exact h1
+      · have : a = a0 := by omega
+        subst this; exact absurd hnt h
+    exact ⟨_, _, ⟨a + 1, _, by omega, inv1.round (by decide) (by decide) _ _ _ _⟩, Or.inl hr⟩
+
+/-! ### 10. term transformers (the variants are DERIVED from the generated terms) -/
+
+/-- every expression node of type `a` gets the type `b` -/
+def retypeE (a b : GTy) : GExpr → GExpr
+  | .lit v t => .lit v (if t = a then b else t)
+  | .var x t => .var x (if t = a then b else t)
+  | .call x t => .call x t
+  | .conv t e => .conv t (retypeE a b e)
+  | .bin op t x y => .bin op (if t = a then b else t) (retypeE a b x) (retypeE a b y)
+  | .cmp op x y => .cmp op (retypeE a b x) (retypeE a b y)
+  | .not e => .not (retypeE a b e)
+  | .and x y => .and (retypeE a b x) (retypeE a b y)
+  | .or x y => .or (retypeE a b x) (retypeE a b y)
+
+def retype (a b : GTy) : GStmt → GStmt
+  | .seq x y => .seq (retype a b x) (retype a b y)
+  | .assign x e => .assign x (retypeE a b e)
+  | .bindCall ts f as => .bindCall ts f (as.map (retypeE a b))
+  | .ite c t e => .ite (retypeE a b c) (retype a b t) (retype a b e)
+  | .loop x => .loop (retype a b x)
+  | s => s
+
+/-- `continue` as rendered BEFORE the fix of the translator: `.cont` alone, the post statement of
+    the three-clause `for` is dropped -/
+def dropPost : GStmt → GStmt
+  | .seq _ .cont => .cont
+  | .seq x y => .seq (dropPost x) (dropPost y)
+  | .ite c t e => .ite c (dropPost t) (dropPost e)
+  | .loop x => .loop (dropPost x)
+  | s => s
+
+/-- the loop bound `0xffff` (a literal 65535 on the right of a comparison in a condition) replaced
+    by `b`, the comparison operator `op` by `op'` -/
+def reBoundE (b : Int) (op' : String) : GExpr → GExpr
+  | .cmp op x (.lit v t) => if v = 65535 then .cmp op' x (.lit b t) else .cmp op x (.lit v t)
+  | e => e
+
+def reBound (b : Int) (op' : String) : GStmt → GStmt
+  | .seq x y => .seq (reBound b op' x) (reBound b op' y)
+  | .ite c t e => .ite (reBoundE b op' c) (reBound b op' t) (reBound b op' e)
+  | .loop x => .loop (reBound b op' x)
+  | s => s
+
+/-- the branch of `err != nil` (the failure line) followed by `break`: a scan that stops at the first
+    error other than the two "not there" errors -/
+def breakOnFail : GStmt → GStmt
+  | .seq x y => .seq (breakOnFail x) (breakOnFail y)
+  | .ite (.cmp "!=" (.var "err" t1) (.var "nil" t2)) t e =>
+    .ite (.cmp "!=" (.var "err" t1) (.var "nil" t2)) (.seq t .brk) (breakOnFail e)
+  | .ite c t e => .ite c (breakOnFail t) (breakOnFail e)
+  | .loop x => .loop (breakOnFail x)
+  | s => s
+
+theorem retype_boolScan : retype .u32 .u16 gs_cli_performBoolScan =
+    scanWith "isCoil" nameCoil nameDI .u16 boolHead16 := by rfl
+theorem dropPost_boolScan : dropPost gs_cli_performBoolScan =
+    scanWith "isCoil" nameCoil nameDI .u32 boolHeadNoPost := by rfl
+theorem reBound_boolScan (b : Int) : reBound b "<=" gs_cli_performBoolScan =
+    scanWith "isCoil" nameCoil nameDI .u32 (boolHead b) := by rfl
+theorem reBound_regScan (b : Int) : reBound b "<=" gs_cli_performRegisterScan =
+    scanWith "isHoldingReg" nameHR nameIR .u32 (regHead b) := by rfl
+theorem reBound_id : reBound 65535 "<=" gs_cli_performBoolScan = gs_cli_performBoolScan ∧
+    reBound 65535 "<=" gs_cli_performRegisterScan = gs_cli_performRegisterScan := ⟨by rfl, by rfl⟩
+
+/-! ### 11. reading the logs of `performPing` and `performUnitIdScan` -/
+
+/-- the `time.Sleep` calls of a log, in order -/
+def sleeps (cs : Calls) : Calls := cs.filter (fun c => c.1 == "time.Sleep")
+
+theorem ping_round_requests (ans : Nat → Val × String) (d : Int) (k : Nat) :
+    requests (pingRoundCalls ans d k) = [pingProbe] := by
+  unfold pingRoundCalls pingLine requests
+  repeat' split
+  all_goals rfl
+
+theorem ping_round_sleeps (ans : Nat → Val × String) (d : Int) (k : Nat) :
+    sleeps (pingRoundCalls ans d k) = if d > 0 then [("time.Sleep", [.int d])] else [] := by
+  unfold pingRoundCalls pingLine sleeps
+  repeat' split
+  all_goals rfl
+
+theorem ping_round_printed (ans : Nat → Val × String) (d : Int) (k : Nat) :
+    printed (pingRoundCalls ans d k) = [pingLine (ans k).2 k] := by
+  unfold pingRoundCalls pingLine printed
+  repeat' split
+  all_goals rfl
+
+theorem ping_requests (ans : Nat → Val × String) (d : Int) (n : Nat) (okc erc toc : Nat) :
+    requests (pingLog n ((List.range n).flatMap (pingRoundCalls ans d)) okc erc toc) =
+      List.replicate n pingProbe := by
+  have h : requests ((List.range n).flatMap (pingRoundCalls ans d)) = (List.range n).map (fun _ => pingProbe) := by
+    unfold requests
+    rw [filter_flatMap_range isRequest _ (fun _ => [pingProbe]) (ping_round_requests ans d) n,
+      flatMap_single_range]
+  unfold pingLog
+  rw [requests_append, requests_append, h]
+  have : (List.range n).map (fun _ => pingProbe) = List.replicate n pingProbe := by
+    apply List.ext_getElem <;> simp
+  rw [this]
+  show [] ++ _ ++ [] = _
+  simp
+
+theorem ping_sleeps (ans : Nat → Val × String) (d : Int) (n : Nat) (okc erc toc : Nat) :
+    sleeps (pingLog n ((List.range n).flatMap (pingRoundCalls ans d)) okc erc toc) =
+      if d > 0 then List.replicate n ("time.Sleep", [.int d]) else [] := by
+  have h : sleeps ((List.range n).flatMap (pingRoundCalls ans d)) =
+      (List.range n).flatMap (fun _ => if d > 0 then [("time.Sleep", [Val.int d])] else []) := by
+    unfold sleeps
+    exact filter_flatMap_range _ _ _ (ping_round_sleeps ans d) n
+  have e : sleeps (pingLog n ((List.range n).flatMap (pingRoundCalls ans d)) okc erc toc) =
+      sleeps ((List.range n).flatMap (pingRoundCalls ans d)) := by
+    unfold pingLog sleeps
+    rw [List.filter_append, List.filter_append]
+    show [] ++ _ ++ [] = _
+    simp
+  rw [e, h]
+  split
+  · rw [flatMap_single_range]
+    apply List.ext_getElem <;> simp
+  · simp
+
+theorem ping_printed (ans : Nat → Val × String) (d : Int) (n : Nat) (okc erc toc : Nat) :
+    printed (pingLog n ((List.range n).flatMap (pingRoundCalls ans d)) okc erc toc) =
+      ("fmt.Printf", [.sym fmtPingStart, .int n]) :: (List.range n).map (fun k => pingLine (ans k).2 k) ++
+        [("fmt.Printf", [.unk, .int n, .int okc, .int erc, .int toc, .sym leafTotal]),
+         ("fmt.Printf", [.sym fmtPingRtt, .sym leafMin, .sym leafAvg, .sym leafMax])] := by
+  have h : printed ((List.range n).flatMap (pingRoundCalls ans d)) =
+      (List.range n).map (fun k => pingLine (ans k).2 k) := by
+    unfold printed
+    rw [filter_flatMap_range isPrint _ (fun k => [pingLine (ans k).2 k]) (ping_round_printed ans d) n,
+      flatMap_single_range]
+  unfold pingLog
+  rw [printed_append, printed_append, h]
+  rfl
+
+theorem unit_round_requests (e : String) (u : Nat) :
+    requests (unitRoundCalls e u) =
+      [("client.SetUnitId", [.int u]), ("client.ReadRegister", [.int 0, .int 1])] := by
+  unfold unitRoundCalls unitPrint requests
+  repeat' split
+  all_goals rfl
+
+theorem unit_round_printed (e : String) (u : Nat) : printed (unitRoundCalls e u) = unitPrint e u := by
+  unfold unitRoundCalls unitPrint printed
+  repeat' split
+  all_goals rfl
+
+theorem unit_requests (ans : Nat → Val × String) (n : Nat) (ok er to gw : Nat) :
+    requests (unitLog ((List.range n).flatMap (fun u => unitRoundCalls (ans u).2 u)) ok er to gw) =
+      (List.range n).flatMap (fun (u : Nat) =>
+        [("client.SetUnitId", [Val.int u]), ("client.ReadRegister", [Val.int 0, Val.int 1])]) := by
+  unfold unitLog
+  rw [requests_append, requests_append]
+  have h : requests ((List.range n).flatMap (fun u => unitRoundCalls (ans u).2 u)) = _ :=
+    filter_flatMap_range isRequest _ _ (fun u => unit_round_requests (ans u).2 u) n
+  rw [h]
+  show [] ++ _ ++ [] = _
+  simp
+
+theorem unit_printed (ans : Nat → Val × String) (n : Nat) (ok er to gw : Nat) :
+    printed (unitLog ((List.range n).flatMap (fun u => unitRoundCalls (ans u).2 u)) ok er to gw) =
+      ("fmt.Println", [.sym fmtUnitStart]) :: (List.range n).flatMap (fun u => unitPrint (ans u).2 u) ++
+        [("fmt.Printf", [.sym fmtUnitFound, .int ok, .int er, .int to, .int gw])] := by
+  unfold unitLog
+  rw [printed_append, printed_append]
+  have h : printed ((List.range n).flatMap (fun u => unitRoundCalls (ans u).2 u)) = _ :=
+    filter_flatMap_range isPrint _ _ (fun u => unit_round_printed (ans u).2 u) n
+  rw [h]
+  rfl
+
+theorem lastUnit_round (A : Calls) (e : String) (u : Nat) :
+    lastUnit (A ++ unitRoundCalls e u) = .int u := by
+  unfold unitRoundCalls unitPrint lastUnit
+  repeat' split
+  all_goals simp [List.foldl_append]
+
+/-- the unit id left selected by the scan over `0..n`: `n` -/
+theorem unit_lastUnit (ans : Nat → Val × String) (n : Nat) (ok er to gw : Nat) :
+    lastUnit (unitLog ((List.range (n + 1)).flatMap (fun u => unitRoundCalls (ans u).2 u)) ok er to gw) =
+      .int n := by
+  unfold unitLog
+  rw [lastUnit_snoc_other _ _ _ (by decide), flatMap_range_succ, ← List.append_assoc, lastUnit_round]
+
+theorem pingCount_succ (ans : Nat → Val × String) (i : Nat) :
+    pingOkCount ans (i + 1) = pingOkCount ans i + (if pingOk (ans i).2 then 1 else 0) ∧
+    pingToCount ans (i + 1) =
+      pingToCount ans i + (if ¬ pingOk (ans i).2 ∧ pingTimeout (ans i).2 then 1 else 0) ∧
+    pingErrCount ans (i + 1) =
+      pingErrCount ans i + (if ¬ pingOk (ans i).2 ∧ ¬ pingTimeout (ans i).2 then 1 else 0) := by
+  refine ⟨?_, ?_, ?_⟩
+  · unfold pingOkCount; rw [countP_range_succ]; simp
+  · unfold pingToCount; rw [countP_range_succ]; simp
+  · unfold pingErrCount; rw [countP_range_succ]; simp
+
+/-- every probe is counted exactly once -/
+theorem pingCount_sum (ans : Nat → Val × String) :
+    ∀ m, pingOkCount ans m + pingErrCount ans m + pingToCount ans m = m := by
+  intro m
+  induction m with
+  | zero => rfl
+  | succ m ih =>
+    obtain ⟨e1, e2, e3⟩ := pingCount_succ ans m
+    rw [e1, e2, e3]
+    by_cases a : pingOk (ans m).2 <;> by_cases b : pingTimeout (ans m).2 <;>
+      simp only [a, b, not_true_eq_false, not_false_eq_true, and_self, and_true, and_false, false_and,
+        true_and, ↓reduceIte] <;> omega
 
 end Modbus.GoEval.CliScan
